@@ -358,6 +358,8 @@ def backActLoop (p : List Nat) (input : List Nat) (m : Match) (max : Nat) (destS
       else if op == pass_omit then backActLoop p input m max destStartMatch fuel (ic + 1) a destStartReplace newPos vars
       else if op == pass_copy then
         let count := destStartReplace - destStartMatch
+        -- `if (destStartReplace + count > output->maxlength) return 0;` (the moved block lies inside the buffer)
+        if count > 0 && destStartReplace + count > max then .fail a vars else
         let a1dsr : Acc × Nat :=
           if count > 0 then
             let src := (a.out.drop destStartReplace).take count
